@@ -37,7 +37,7 @@ ToSet(q) == { q[i] : i \in DOMAIN q }
 F(ok, prop, what, detail) == IF ok THEN {} ELSE { [p |-> prop, w |-> what, d |-> detail] }
 Report(fs) == IF fs = {} THEN TRUE ELSE PrintT(<<"FAIL", l, ToJson(fs)>>)
 NoPos == [board |-> EmptyBoard, stm |-> White, cast |-> {}, ep |-> 8]
-NoGo == [t |-> 0, params |-> [none |-> 0], infotime |-> -1, stopped |-> FALSE, stopt |-> 0, fresh |-> FALSE, quit |-> FALSE]
+NoGo == [t |-> 0, params |-> [none |-> 0], infotime |-> -1, stopped |-> FALSE, stopt |-> 0, fresh |-> FALSE, quit |-> FALSE, cut |-> FALSE]
 NoAcc == [depths |-> << >>, scores |-> << >>, pvs |-> << >>]
 Tolerance == 2500   \* ms, driver clock: wide enough for a loaded machine
 
@@ -70,6 +70,7 @@ Has(r, k) == k \in DOMAIN r
 Remaining(params, side) ==
   IF Has(params, "movetime") THEN params.movetime
   ELSE IF side = White THEN params.wtime ELSE params.btime
+AnyTime(params) == \E k \in {"movetime", "wtime", "btime", "winc", "binc"} : Has(params, k)
 Timed(params) == Has(params, "movetime") \/ (Has(params, "wtime") /\ Has(params, "btime") /\ Has(params, "winc") /\ Has(params, "binc"))
 
 Init == l = 1 /\ rootrec = << >> /\ pending = 0 /\ root = NoPos /\ sroot = NoPos /\ go = NoGo /\ waiting = [acc |-> NoAcc, memo |-> {}, fresh |-> TRUE]
@@ -114,14 +115,16 @@ Cmd ==
                           ELSE {}))
                /\ IF accepted
                   THEN /\ pending' = pending + 1 /\ sroot' = root /\ root' = NoPos
-                       /\ go' = [t |-> e.t, params |-> e.params, infotime |-> it, stopped |-> FALSE, stopt |-> 0, fresh |-> waiting.fresh, quit |-> FALSE]
+                       /\ go' = [t |-> e.t, params |-> e.params, infotime |-> it, stopped |-> FALSE, stopt |-> 0, fresh |-> waiting.fresh, quit |-> FALSE, cut |-> FALSE]
                        /\ waiting' = [waiting EXCEPT !.acc = NoAcc, !.fresh = FALSE]
                        /\ rootrec' = << >>
                   ELSE UNCHANGED <<rootrec, pending, sroot, root, go, waiting>>
        [] e.kind = "stop" ->
             /\ Report(common) /\ go' = [go EXCEPT !.stopped = TRUE, !.stopt = IF go.stopped THEN go.stopt ELSE e.t] /\ UNCHANGED <<rootrec, pending, root, sroot, waiting>>
        [] e.kind = "ucinewgame" ->
-            /\ Report(common) /\ root' = NoPos /\ waiting' = [waiting EXCEPT !.fresh = TRUE] /\ UNCHANGED <<rootrec, pending, sroot, go>>
+            \* (ucinewgame ends a running search as stop does: the go is "cut" for the premature-answer rule below)
+            /\ Report(common) /\ root' = NoPos /\ waiting' = [waiting EXCEPT !.fresh = TRUE] /\ go' = [go EXCEPT !.cut = TRUE]
+            /\ UNCHANGED <<rootrec, pending, sroot>>
        [] e.kind \in {"show", "d"} ->
             /\ Report(common
                  \cup (IF Has(e, "show") /\ ~e.refused /\ root # NoPos /\ e.show.fl # << >>
@@ -152,6 +155,21 @@ Best ==
           \cup (IF pending >= 1 /\ sroot # NoPos
                 THEN F(IF lt = {} THEN e.move = "none" ELSE e.move \in lt, IF limited THEN "C06" ELSE "C07",
                        "bestmove is not a legal move of the position searched", [fen |-> FenLine(sroot), move |-> e.move, nlegal |-> Cardinality(lt)])
+                ELSE {})
+          \* C14: "exactly one bestmove (after stop, after the time budget, or at the depth limit)".  A go without any time
+          \* parameter that was neither stopped nor cut by ucinewgame / quit ends on its own only at its depth limit, on a mate
+          \* score, on an only move, or when the iteration depth runs out of stack room (>= 190 in these sessions): an answer
+          \* whose last reported iteration is below 64 and below the limit, with ordinary scores and a choice of moves, was
+          \* triggered by something else (a timer left over from an earlier go, a flag lowered by another thread).
+          \cup (IF pending >= 1 /\ sroot # NoPos /\ ~go.stopped /\ ~go.quit /\ ~go.cut /\ ~AnyTime(go.params)
+                   /\ Cardinality(lt) >= 2 /\ waiting.acc.depths # << >>
+                THEN LET ds == waiting.acc.depths   sc == waiting.acc.scores
+                         last == ds[Len(ds)]
+                     IN F(~(/\ last < 64
+                            /\ (Has(go.params, "depth") => last < go.params.depth)
+                            /\ \A i \in 1..Len(sc) : sc[i] < 1000000000 /\ sc[i] > 0 - 1000000000),
+                          "C14", "bestmove arrived for a go without time limit before stop and before its depth limit",
+                          [go |-> go.params, last_depth |-> last, elapsed |-> e.t - go.t])
                 ELSE {})
           \cup (IF pending >= 1 /\ go.infotime >= 0 /\ go.infotime <= 400 /\ ~go.stopped /\ ~Has(go.params, "depth")
                 THEN F(e.t - go.t <= go.infotime + Tolerance, "C13", "best move announced long after the allotted time",
